@@ -106,6 +106,19 @@ def run_rd(scn):
                 out.append("X " + " ".join(text_lines(s, False)))
             else:
                 out.append("X")
+        elif t[0] == "dotfile":
+            # the file-rendering entry point: what is written to <name>.dot must be the same graph
+            import contextlib
+            import io
+            import tempfile
+            import pydot
+            with tempfile.TemporaryDirectory() as tmp, contextlib.redirect_stdout(io.StringIO()):
+                files = py_trees.display.render_dot_tree(
+                    root, visibility_level=py_trees.common.VisibilityLevel(int(t[1])),
+                    collapse_decorators=t[2] == "1", name="tree", target_directory=tmp)
+                g = pydot.graph_from_dot_file(files["dot"])[0]
+            nodes = [n for n in g.get_nodes() if unq(n.get_name()) not in ("node", "edge", "graph", "\\n", "")]
+            out += ["NC %d" % len(nodes), "EC %d" % len(g.get_edges())]
         elif t[0] == "dot":
             g = py_trees.display.dot_tree(root, visibility_level=py_trees.common.VisibilityLevel(int(t[1])),
                                           collapse_decorators=t[2] == "1")
